@@ -213,6 +213,8 @@ def r14_3(ctx):
                         m = c.args[0].func.value.id
                     elif isinstance(c.args[0], ast.Subscript) and isinstance(c.args[0].value, ast.Attribute) and isinstance(c.args[0].value.value, ast.Name):
                         m = c.args[0].value.value.id
+                    elif isinstance(c.args[0], ast.Starred) and isinstance(c.args[0].value, ast.Attribute) and c.args[0].value.attr == "shape" and isinstance(c.args[0].value.value, ast.Name):
+                        m = c.args[0].value.value.id      # opti.variable(*v.shape, ..)
                     ok = m is not None and sk in ("stage._scale[%s]" % m, "vec(stage._scale[%s])" % m)
                 ctx.check(bool(ok), label, detail="decision variable scaled with another symbol's scale", expected="the scale of the same symbol / kind as the dimension argument (%s)" % dim,
                           found="scale=%s" % sk, fi=g, node=c, sample={"dim": dim, "scale": sk})
